@@ -13,15 +13,15 @@ def main(tier):
     ln = 2 if tier == 'quick' else 3
     jobs = []
     PRE = ['nothing happened before', 'a writable session (readonly=False) on an unrelated file was used before', 'a writable session (cls=Session) on an unrelated file was used before']
-    for pre in range(3):
+    for pre, wal in ((0, 0), (1, 0), (2, 0), (0, 1)):
         for opener in (0, 1):
             for o0 in range(len(OPS)):
-                if pre and tier == 'quick' and o0 not in (1, 2, 3, 4, 11):
-                    continue        # quick tier: with a pre-history only the histories starting with an edit / commit / reopen
-                jobs.append(dict(path=H, fname='_c18_history', params={'len': ln, 'opener': opener, 'o0': o0, 'pre': pre}, timeout=300 if tier == 'quick' else 1500, self_reach=True,
+                if (pre or wal) and tier == 'quick' and o0 not in (1, 2, 3, 4, 11) + ((0, 6) if wal else ()):
+                    continue        # quick tier: with a pre-history / WAL file only the histories starting with an edit / commit / reopen (/ query / inspection)
+                jobs.append(dict(path=H, fname='_c18_history', params={'len': ln, 'opener': opener, 'o0': o0, 'pre': pre, 'wal': wal}, timeout=300 if tier == 'quick' else 1500, self_reach=True,
                                  unblock=['sqlite3.connect', 'sqlite3.connect/handle', 'open', 'shutil.copyfile', 'shutil.rmtree', 'os.mkdir', 'os.remove', 'os.rmdir', 'os.listdir', 'os.scandir'],
-                                 label=f'histories of {ln} operations starting with {OPS[o0]}, database opened by {["ReferenceDatabase.load_from_dir", "the CLI context"][opener]}; {PRE[pre]}',
-                                 bounds={'history length': ln, 'operations': OPS, 'first operation': OPS[o0], 'opened by': ['library', 'CLI context'][opener], 'before opening': PRE[pre],
+                                 label=f'histories of {ln} operations starting with {OPS[o0]}, database opened by {["ReferenceDatabase.load_from_dir", "the CLI context"][opener]}; {PRE[pre]}' + ('; genome file in WAL mode' if wal else ''),
+                                 bounds={'history length': ln, 'operations': OPS, 'first operation': OPS[o0], 'opened by': ['library', 'CLI context'][opener], 'before opening': PRE[pre], 'genome file journal mode': 'WAL' if wal else 'rollback (as shipped)',
                                          'database': 'private copy of tests/data/testdb_210818 (SQLite genome file + HDF5 signature file)'}))
     xprop.run_jobs(run, jobs, rung=tier)
     run.extra['evaluations'] = sum(r.get('cells_executed', 0) for r in run.obligations)
